@@ -823,14 +823,18 @@ def typeRuleDiags (path : String) (s : Schema) : List Diag :=
     | .call fn argc => callDiags path s r fn argc
     | _ => []
 
+/-- `ENTITY_get_named_attribute_once( supertype, name )` (since C06-17 the OVERLOADED_ATTR check uses the marked search: every
+    entity is visited once, so it also returns on cyclic supertypes): the supertype or an entity reachable from it declares `name` -/
+def overloadFound (s : Schema) (name : String) (fuel : Nat) (sup : String) : Option Bool := some (varFind s name fuel sup)
+
 /-- OVERLOADED_ATTR candidates of one entity: for every new (not redeclared) attribute and every supertype, the result of
-    `ENTITYget_named_attribute( supertype, name )` and the diagnostic to print when it finds one -/
+    the look-up in that supertype and the diagnostic to print when it finds one -/
 def overloadCands (path : String) (s : Schema) (fuel : Nat) (e : Entity) : List (Option Bool × Diag) :=
   e.attrs.flatMap fun a =>
     match a.redeclOf with
     | some _ => []
     | none => (supersOf s e).map fun sup =>
-        (namedAttr s a.name fuel sup, mk path LibErrors.OVERLOADED_ATTR a.line [sArg a.name, sArg (declName sup)])
+        (overloadFound s a.name fuel sup, mk path LibErrors.OVERLOADED_ATTR a.line [sArg a.name, sArg (declName sup)])
 
 def overloadDiags (path : String) (s : Schema) (fuel : Nat) (e : Entity) : List Diag :=
   (overloadCands path s fuel e).filterMap fun (r, d) => if r = some true then some d else none
